@@ -210,6 +210,7 @@ def run_P3(chk):
 
 
 MUTANTS = [
+    ('canonize_ without the leading absorb', 'yastn/tn/mps/_mps_obc.py', '        self.absorb_central_(to=to)\n        for n in self.sweep(to=to):\n            self.orthogonalize_site_(n=n, to=to, normalize=normalize)\n            self.absorb_central_(to=to)', '        for n in self.sweep(to=to):\n            self.orthogonalize_site_(n=n, to=to, normalize=normalize)\n            self.absorb_central_(to=to)', 'P4'),
     ("factor not multiplied by nS", "yastn/tn/mps/_mps_obc.py", "            self.factor = 1 if normalize else self.factor * nS", "            self.factor = 1 if normalize else self.factor", "FF4"),
     ("plus in composition", "yastn/tn/mps/_mps_obc.py", "discarded2_local + discarded2_total - discarded2_total * discarded2_local", "discarded2_local + discarded2_total + discarded2_total * discarded2_local", "FF5"),
     ("no sqrt", "yastn/tn/mps/_mps_obc.py", "        return discarded2_total ** 0.5", "        return discarded2_total", "FF5"),
